@@ -937,6 +937,10 @@ class Emit:
             return ('stmt', "%s = %s;" % (s.cname(dest), e))
         n = callee
         if n.startswith('@llvm.'):
+            if n.startswith('@llvm.lifetime.end') and len(args) == 2 and args[0].kind == 'int' and 0 < args[0].val < (1 << 20):
+                # the object is dead from here on: with -DLL_LIFETIME its bytes become arbitrary, so a later read through a dangling reference
+                # (use-after-scope) is visible to the solver as an unconstrained value instead of the stale content
+                return ('stmt', "LL_LIFETIME_END(%s, %s);" % (A[1], A[0]))
             if n.startswith(('@llvm.lifetime', '@llvm.experimental.noalias', '@llvm.dbg', '@llvm.invariant')): return ('stmt', ";")
             if n.startswith(('@llvm.memcpy', '@llvm.memmove')):
                 mv = 'MOVE' if n.startswith('@llvm.memmove') else 'CPY'
@@ -1039,6 +1043,11 @@ static inline void* LL_CALLOC(size_t n, size_t m) { void* p = calloc(n, m); __CP
 #define CHK_NSW(ok, what) ((void)0)
 #endif
 #define LL_FREE(p) free(p)
+#if defined(LL_LIFETIME) && !defined(LL_NATIVE)
+#define LL_LIFETIME_END(p, n) __CPROVER_havoc_slice((void*)(p), (n))
+#else
+#define LL_LIFETIME_END(p, n) ((void)0)
+#endif
 /* CBMC's built-in memcpy/memset are exact for constant lengths only (observed: symbolic length drops data) */
 static inline void ll_memcpy_loop(uint8_t* d, const uint8_t* s, size_t n) { for (size_t i = 0; i < n; i++) d[i] = s[i]; }
 #ifndef LL_NATIVE
